@@ -80,13 +80,34 @@ def mir_dump(log=None):
     return out, time.time() - t, False
 
 
+def _write_if_changed(path, text):
+    try:
+        with open(path) as f:
+            if f.read() == text:
+                return
+    except FileNotFoundError:
+        pass
+    with open(path, 'w') as f:
+        f.write(text)
+
+
 def build_replay(profiles=('dev',)):
     """Build mt-replay against /repo's current tree; returns {profile: binary path}."""
     tdir = os.path.join(CACHE, 'replay-target')
     out = {}
-    lock_src = os.path.join(REPO, 'Cargo.lock')
+    # the crate is instantiated under the cache with its path dependency pointing at the repository
+    # under test (normally /repo; MEMTERM_REPO overrides it for scratch copies)
+    cdir = os.path.join(CACHE, 'replay-crate')
+    os.makedirs(os.path.join(cdir, 'src'), exist_ok=True)
+    with open(os.path.join(VERIF, 'replay', 'Cargo.toml')) as f:
+        toml = f.read().replace('path = "/repo"', 'path = "%s"' % REPO)
+    _write_if_changed(os.path.join(cdir, 'Cargo.toml'), toml)
+    with open(os.path.join(VERIF, 'replay', 'src', 'main.rs')) as f:
+        _write_if_changed(os.path.join(cdir, 'src', 'main.rs'), f.read())
+    with open(os.path.join(VERIF, 'replay', 'Cargo.lock')) as f:
+        _write_if_changed(os.path.join(cdir, 'Cargo.lock'), f.read())
     for prof in profiles:
-        cmd = ['cargo', 'build', '--offline', '--manifest-path', os.path.join(VERIF, 'replay', 'Cargo.toml'),
+        cmd = ['cargo', 'build', '--offline', '--manifest-path', os.path.join(cdir, 'Cargo.toml'),
                '--target-dir', tdir]
         if prof == 'release':
             cmd.append('--release')
